@@ -238,13 +238,30 @@ ROUND5 = {
 }
 
 
+ROUND6 = {
+    "C01": " Token objects are reused on a second index under the same key; three threads search one scheme object and index; keywords of 254 to 65537 bytes with siblings sharing long prefixes.",
+    "C02": " The same long keywords with absent siblings (same first 254/255/256/300/1000 bytes, truncations, extensions); searches from three threads (token + search, search-only).",
+    "C03": " The real server (started through run_server) holds 27 services of all schemes at once and sees only bytes; every service is searched three times in different orders.",
+    "C04": " The index is scanned again after it has been searched; posting lists are also handed over as tuple, list subclass, one-shot iterator, generator, map object, keys view.",
+    "C06": " Every third sorted-table case runs with clustered labels (forty pseudo-random values share their leading four bytes).",
+    "C09": " A wait without result or closure is decided logically (never served) when the server still has a closed connection registered.",
+    "C10": " Symbol cx: a configuration that cannot be stored as JSON, in every short sequence; configurations carry non-ASCII text; every fifth shard runs with an ASCII default text encoding.",
+    "C14": " Every shard runs under the plain interpreter and under python -O.",
+    "C15": " Every shard in both interpreter modes; one PRP / cipher object is asked for 2^16+500 distinct inputs, then the first ones again.",
+    "C16": " Every shard in both interpreter modes; declared-length PRFs and hash objects are all alive while each is used.",
+    "C17": " Every shard in both interpreter modes.",
+    "C19": " Arrays addressed by relative paths; a path reused for an array of another geometry after release; arrays read by another interpreter process with another hash seed.",
+    "C20": " Dictionaries opened by another interpreter process with another hash seed; with blocks left by an exception, then reopen.",
+}
+
+
 def main():
     checks = []
     for pid in ALL:
         if pid not in CHECKS:
             continue
         cat, tech, text, note, ref = CHECKS[pid]
-        text = text + ROUND3.get(pid, "") + ROUND4.get(pid, "") + ROUND5.get(pid, "")
+        text = text + ROUND3.get(pid, "") + ROUND4.get(pid, "") + ROUND5.get(pid, "") + ROUND6.get(pid, "")
         checks.append({
             "property_id": pid,
             "quick_cmd": f"./check {pid} quick",
